@@ -54,7 +54,8 @@ def native_cases(tyname, route, values):
 
 
 TEXT_GRID = ["1e1", "4.5e1", "1E0", "-1.2e1", "+5", ".5", "5.", "0e0", "1e-3", "inf", "-inf", "NaN", "nan", "infinity", "1e400", "-0",
-             "", " ", " 1", "1 ", "1_0", "0x10", "1e", "e1", ".", "+", "1,5", "1e+", "--1", "1.2.3", "\u0661", "1f64", "9e9", "1e2", "-9e1"]
+             "", " ", " 1", "1 ", "1_0", "0x10", "1e", "e1", ".", "+", "1,5", "1e+", "--1", "1.2.3", "\u0661", "1f64", "9e9", "1e2", "-9e1",
+             "+-5", "++5", "-+5", "+-0", "++1e1", "+ 5", "+.5", "-.5e1", "5-", "5+", "+5+", "0-1", "1e1e1", "1..", "..1", "+inf", "+nan", "-nan", "1e-", "5.e0"]
 
 
 def text_judge(tyname, lo, hi, texts):
@@ -109,7 +110,15 @@ def concretise_factory(rep):
             except Exception:
                 pass
         if route == "ts":
-            return text_judge(tyname, lo, hi, texts + TEXT_GRID)
+            # the solver abstracts the parsed VALUE (any f64); make its strings concrete with in-range numerals: same non-numeric skeleton
+            import re as _re
+            more = []
+            for t in texts:
+                m = _re.match(r"^([^0-9a-zA-Z.]*)(.*?)([^0-9a-zA-Z.]*)$", t)
+                if m:
+                    for core in ("0", "1", "5", "1e0", ".5", "5."):
+                        more.append(m.group(1) + core + m.group(3))
+            return text_judge(tyname, lo, hi, texts + more + TEXT_GRID)
         vals = vals + grid(lo, hi)
         cases = native_cases(tyname, route, vals)
         results = replay.run([c for c, _ in cases])
